@@ -5,6 +5,9 @@
 //! usage: wfh <stream> <quick|thorough> <seed> <outdir>
 //!        wfh replay <stream> <op line...>       (re-run one op on the implementation)
 mod codec;
+mod core;
+mod funcs;
+mod fgen;
 mod out;
 mod rng;
 mod streams;
